@@ -79,7 +79,35 @@ def assert_call(sig: str, rnd: random.Random):
         return code + call_cheat(HEVM, size), meta
     nhead = 3 if has_msg else 2
     head = 32 * nhead
-    if d["arr"]:
+    if d["arr"] and d["typ"] in ("bytes", "string"):
+        # bytes[] / string[] operands: elements of 0..32 bytes whose contents are calldata words; the second operand mostly
+        # repeats the shape of the first (same element count and lengths - the head words of both are then equal)
+        n1 = rnd.choice([0, 1, 2, 2, 3])
+        el1 = [(rnd.choice([0, 1, 3, 32]), rnd.randrange(3)) for _ in range(n1)]
+        if rnd.random() < 0.7:
+            el2 = [(L, k if rnd.random() < 0.5 else rnd.randrange(3)) for L, k in el1]
+        else:
+            el2 = [(rnd.choice([0, 1, 3, 32]), rnd.randrange(3)) for _ in range(rnd.choice([n1, n1 + 1, max(0, n1 - 1)]))]
+
+        def enc(base_off, elems):
+            c = mstore_const(BUF + 4 + base_off, len(elems))
+            area, cur = base_off + 32, 32 * len(elems)
+            for j, (L, k) in enumerate(elems):
+                c += mstore_const(BUF + 4 + area + 32 * j, cur) + mstore_const(BUF + 4 + area + cur, L)
+                if L:
+                    c += mstore_in(BUF + 4 + area + cur + 32, k)
+                cur += 64 if L else 32
+            return c, 32 + cur
+
+        off1 = head
+        c1, s1 = enc(off1, el1)
+        off2 = off1 + s1
+        c2, s2 = enc(off2, el2)
+        code += mstore_const(BUF + 4, off1) + mstore_const(BUF + 36, off2) + c1 + c2
+        end = off2 + s2
+        meta.update({"elements1": el1, "elements2": el2})
+        meta["domain"] = [0, 1, (0x61 << 248), (0x61 << 248) + 1, (0x616263 << 232), (0x616264 << 232), M256 - 1]
+    elif d["arr"]:
         # T[] operands of lengths n1, n2 with elements taken from the calldata words
         n1, n2 = rnd.choice([(0, 0), (1, 1), (2, 2), (3, 3), (2, 2), (0, 1), (1, 2), (2, 1), (3, 2)])
         idx1 = [rnd.randrange(3) for _ in range(n1)]
